@@ -472,6 +472,39 @@ fn names_that_come_back(acc: &mut Acc) {
             J::obj().with("check", J::s("C02")).with("mode", J::s("content")).with("got", J::s(format!("{other:?}"))).with("expected", J::s("the wrapped / unwrapped value")),
         ),
     }
+    // a name removed, re-added and removed again: the reader in the middle still has the field, the data says it is gone
+    #[derive(BinaryCodec, Debug, PartialEq, Clone)]
+    #[evolution(FieldRemoved("x"), FieldAdded("x", 5u8), FieldRemoved("x"))]
+    struct RemovedTwiceW {
+        a: u8,
+    }
+    #[derive(BinaryCodec, Debug, PartialEq, Clone)]
+    #[evolution(FieldRemoved("x"), FieldAdded("x", 5u8))]
+    struct RemovedTwiceR {
+        a: u8,
+        x: u8,
+    }
+    #[derive(BinaryCodec, Debug, PartialEq, Clone)]
+    #[evolution(FieldRemoved("x"), FieldAdded("x", Some(5u8)))]
+    struct RemovedTwiceROpt {
+        a: u8,
+        x: Option<u8>,
+    }
+    one(acc, "removed_twice_same_definition", RemovedTwiceW { a: 1 });
+    acc.case(Some(0x7202));
+    let (r, _) = sbase::monitored(None, || {
+        let bytes = desert::serialize_to_byte_vec(&RemovedTwiceW { a: 1 }).map_err(|e| sbase::classify(&e))?;
+        let required = desert::deserialize::<RemovedTwiceR>(&bytes).map_err(|e| sbase::classify(&e).variant.to_string());
+        let optional = desert::deserialize::<RemovedTwiceROpt>(&bytes).map_err(|e| sbase::classify(&e).variant.to_string());
+        Ok((required, optional))
+    });
+    match r {
+        Call::Ok((Err(e), Ok(o))) if e == "FieldRemovedInSerializedVersion" && o == (RemovedTwiceROpt { a: 1, x: None }) => acc.count("names:removed_twice:reader_in_the_middle_as_documented"),
+        other => acc.violation(
+            "C02|name_comes_back|removed_twice_reader_in_the_middle".to_string(),
+            J::obj().with("check", J::s("C02")).with("mode", J::s("content")).with("got", J::s(format!("{other:?}"))).with("expected", J::s("required field: FieldRemovedInSerializedVersion; optional field: None")),
+        ),
+    }
     // the header of the reused-name record must be the one of the fresh-name record, name apart
     let a = desert::serialize_to_byte_vec(&ReusedThenOptional { a: 1, x: Some(2) });
     acc.case(Some(0x4ead));
@@ -490,7 +523,7 @@ fn deep_recursive_values(ctx: &mut Ctx, acc: &mut Acc, check: &str) {
     if ctx.shard != 0 || ctx.only_fresh() {
         return;
     }
-    for depth in [129usize, 300, 2000] {
+    for depth in [129usize, 300, 2000, 5000] {
         // DeepRec { v, next: Option<Box<DeepRec>> }
         let mut v = Val::Rec(vec![Val::U(1), Val::None]);
         for i in 0..depth {
@@ -506,7 +539,12 @@ fn deep_recursive_values(ctx: &mut Ctx, acc: &mut Acc, check: &str) {
         for _ in 0..depth {
             de = Val::Ctor(1, vec![de]);
         }
-        for (id, val) in [("DeepRec", v), ("DeepVec", dv), ("DeepEnum", de)] {
+        // DeepEvolved { v, next: Option<Box<DeepEvolved>>, tag (added) }: a record with a header at every level
+        let mut dev = Val::Rec(vec![Val::U(1), Val::None, Val::U(9)]);
+        for i in 0..depth {
+            dev = Val::Rec(vec![Val::U((i % 250) as u128), Val::some(dev), Val::U((i % 7) as u128)]);
+        }
+        for (id, val) in [("DeepRec", v), ("DeepVec", dv), ("DeepEnum", de), ("DeepEvolved", dev)] {
             let Some(s) = ctx.reg.get(id) else { continue };
             let ty = s.ty();
             // the harness' own recursion (canonical form, rendering) runs on a large stack
@@ -945,9 +983,62 @@ pub fn c07(ctx: &mut Ctx, acc: &mut Acc) -> i32 {
     0
 }
 
+/// Client codecs that step over reserved bytes with `skip` (padding, a field they do not care about): the skipped
+/// bytes are part of the encoding, so a cut inside them is a truncation like any other — at the very end of the input,
+/// inside a sequence, inside a chunk of an evolved record.
+fn skipped_tails(acc: &mut Acc) {
+    use desert::{BinaryCodec, BinaryDeserializer, BinaryInput, BinaryOutput, BinarySerializer, DeserializationContext, SerializationContext};
+    #[derive(Debug, PartialEq, Clone)]
+    struct Frame(u16);
+    impl BinarySerializer for Frame {
+        fn serialize<O: BinaryOutput>(&self, c: &mut SerializationContext<O>) -> desert::Result<()> {
+            c.write_u16(self.0);
+            c.write_bytes(&[0xEE; 4]); // reserved
+            Ok(())
+        }
+    }
+    impl BinaryDeserializer for Frame {
+        fn deserialize(c: &mut DeserializationContext<'_>) -> desert::Result<Self> {
+            let v = c.read_u16()?;
+            c.skip(4)?;
+            Ok(Frame(v))
+        }
+    }
+    #[derive(BinaryCodec, Debug, PartialEq, Clone)]
+    #[evolution(FieldAdded("f", Frame(0)))]
+    struct Holder {
+        a: u8,
+        f: Frame,
+    }
+    fn all_prefixes<T: BinarySerializer + BinaryDeserializer + std::fmt::Debug>(acc: &mut Acc, what: &str, v: &T) {
+        let Ok(bytes) = desert::serialize_to_byte_vec(v) else {
+            acc.inconclusive(format!("skipped tails: {what} does not encode"));
+            return;
+        };
+        for k in 0..bytes.len() {
+            acc.case(Some(sig(&[what.as_bytes(), &bytes[..k]])));
+            let (r, _) = sbase::monitored(None, || desert::deserialize::<T>(&bytes[..k]).map(|x| format!("{x:?}")).map_err(|e| sbase::classify(&e)));
+            match r {
+                Call::Err(_) => acc.count("prefixes_of_skipping_codecs_rejected"),
+                other => acc.violation(
+                    format!("C08|skipped_tail|{what}|{}", if other.is_ok() { "decoded_ok".to_string() } else { other.class() }),
+                    J::obj().with("check", J::s("C08")).with("mode", J::s("content")).with("what", J::s(what)).with("cut", J::u(k as u64)).with("full", J::s(hex(&bytes))).with("got", J::s(format!("{other:?}"))),
+                ),
+            }
+        }
+    }
+    all_prefixes(acc, "frame", &Frame(0x0102));
+    all_prefixes(acc, "vec_of_frames", &vec![Frame(1), Frame(2), Frame(3)]);
+    all_prefixes(acc, "tuple_ending_in_a_frame", &(7u8, String::from("x"), Frame(9)));
+    all_prefixes(acc, "frame_in_its_own_chunk", &Holder { a: 5, f: Frame(6) });
+}
+
 pub fn c08(ctx: &mut Ctx, acc: &mut Acc) -> i32 {
     if ctx.extra.get("only").is_none() {
         big_values(ctx, acc, "C08");
+        if ctx.shard == 0 {
+            skipped_tails(acc);
+        }
     }
     let n_cat = ctx.n(100, 1000);
     let n_der = ctx.n(20, 150);
